@@ -174,19 +174,10 @@ impl<'a> UserDefinedFunctionLinter<'a> {
 
 impl<'a> PostConversionLinter for UserDefinedFunctionLinter<'a> {
     fn visit_expression(&mut self, expr_pos: &ExpressionPos) -> Result<(), LintErrorPos> {
-        let Positioned { element: e, pos } = expr_pos;
-        match e {
-            Expression::FunctionCall(n, args) => {
-                for x in args {
-                    self.visit_expression(x)?;
-                }
-                self.visit_function(n, *pos, args)
-            }
-            Expression::BinaryExpression(_, left, right, _) => {
-                self.visit_expression(left)?;
-                self.visit_expression(right)
-            }
-            Expression::UnaryExpression(_, child) => self.visit_expression(child),
+        // first the nested expressions (operands, parenthesis, arguments, array indices)
+        self.visit_nested_expressions(&expr_pos.element)?;
+        match &expr_pos.element {
+            Expression::FunctionCall(n, args) => self.visit_function(n, expr_pos.pos, args),
             _ => Ok(()),
         }
     }
